@@ -42,6 +42,7 @@ func genBatch(r *gen.Rand) []cmdSpec {
 // client (re)starts from; the index is recovered from the command's position in the batch.
 type exch struct {
 	from  int
+	seq   int64 // sequence number of the first arrival of the exchange
 	ticks []tick
 }
 
@@ -59,7 +60,7 @@ func splitExchanges(cs []cmdSpec, arr []fs.Arrival, left *int64) []exch {
 			continue
 		}
 		if len(out) == 0 || i != next || a.Conn != conn {
-			out = append(out, exch{from: i})
+			out = append(out, exch{from: i, seq: a.Seq})
 		}
 		e := &out[len(out)-1]
 		e.ticks = append(e.ticks, tick{R: replyOfArrival(a), Exec: a.Executed, Left: left})
@@ -123,9 +124,9 @@ func runBatch(c Case) (res obs.Result) {
 			delays[i] = -1
 		}
 	}
-	l := &dlog{}
+	l := &ro.ConsultLog{}
 	pipelining := r.Chance(1, 2)
-	cli, err := newClient(r, "single", d, rueidis.ClientOption{DisableRetry: disableRetry, RetryDelay: delayFn(delays, l), AlwaysPipelining: pipelining})
+	cli, err := newClient(r, "single", d, rueidis.ClientOption{DisableRetry: disableRetry, RetryDelay: delayFn(delays, l, d), AlwaysPipelining: pipelining})
 	if err != nil {
 		res.Oracle, res.Site, res.Class = "harness: NewClient failed: "+err.Error(), "harness", "setup"
 		return
@@ -180,7 +181,7 @@ func runBatch(c Case) (res obs.Result) {
 	for i := range finals {
 		fin[i] = finals[i].String()
 	}
-	res.Obs = map[string]any{"cmds": desc, "exchanges": len(ex), "final": fin, "retry": !disableRetry, "delays": delays, "delaycalls": l.calls}
+	res.Obs = map[string]any{"cmds": desc, "exchanges": len(ex), "final": fin, "retry": !disableRetry, "delays": delays, "delaycalls": l.Calls()}
 	res.Site = "client.go:singleClient.DoMulti"
 	allRetryable := true
 	for _, b := range cs {
@@ -189,26 +190,22 @@ func runBatch(c Case) (res obs.Result) {
 		}
 	}
 	if *propFlag == "C28" && len(ex) > 1 {
-		why := ""
-		switch {
-		case !allRetryable:
-			why = "a member is neither read-only nor retryable"
-		case disableRetry:
-			why = "DisableRetry is set"
-		}
-		if why == "" {
-			neg := true
-			for _, x := range delays {
-				if x >= 0 {
-					neg = false
-				}
+		// every exchange after the first is a retry of the whole batch: all members must be retryable, retries
+		// enabled, and the last RetryDelay consultation since the previous exchange started must be >= 0
+		cons := l.Calls()
+		for k := 1; k < len(ex); k++ {
+			why := ""
+			switch {
+			case !allRetryable:
+				why = "a member is neither read-only nor retryable"
+			case disableRetry:
+				why = "DisableRetry is set"
+			default:
+				why = ro.RetryJustified(cons, ex[k-1].seq, ex[k].seq, "")
 			}
-			if neg {
-				why = "RetryDelay is negative for every attempt"
+			if why != "" && res.Oracle == "" {
+				res.Oracle, res.Class = fmt.Sprintf("the batch was sent again (exchange %d): %s", k, why), "retry-policy"
 			}
-		}
-		if why != "" {
-			res.Oracle, res.Class = "the batch was re-sent: "+why, "retry-policy"
 		}
 	}
 	if *propFlag == "C03" {
@@ -257,8 +254,8 @@ func runStandalone(c Case) (res obs.Result) {
 			delays[i] = 0
 		}
 	}
-	l := &dlog{}
-	cli, err := newClient(r, "standalone", d, rueidis.ClientOption{DisableRetry: disableRetry, RetryDelay: delayFn(delays, l)})
+	l := &ro.ConsultLog{}
+	cli, err := newClient(r, "standalone", d, rueidis.ClientOption{DisableRetry: disableRetry, RetryDelay: delayFn(delays, l, d)})
 	if err != nil {
 		res.Oracle, res.Site, res.Class = "harness: NewClient failed: "+err.Error(), "harness", "setup"
 		return
@@ -315,11 +312,15 @@ func runStandalone(c Case) (res obs.Result) {
 	for i := range rs {
 		ts[i] = nodes[i][len(nodes[i])-4:] + "=" + rs[i].String()
 	}
-	res.Obs = map[string]any{"cmd": cs.argv, "retryable": cs.retryable, "steps": stepsDesc(steps), "ticks": ts, "final": final.String(), "retry": !disableRetry, "delays": delays, "execs": execs}
+	res.Obs = map[string]any{"cmd": cs.argv, "retryable": cs.retryable, "steps": stepsDesc(steps), "ticks": ts, "final": final.String(), "retry": !disableRetry, "delays": delays, "delaycalls": l.Calls(), "execs": execs}
 	res.Site = "standalone.go:Do"
 	if *propFlag == "C28" {
 		// a re-send after REDIRECT is not a retry; everything else follows the single-client policy
-		retryOracle(&res, "standalone.go:Do", cs.retryable, !disableRetry, delays, rs, 0)
+		seqs := make([]int64, len(arr))
+		for i, a := range arr {
+			seqs[i] = a.Seq
+		}
+		retryOracle(&res, "standalone.go:Do", cs.retryable, !disableRetry, l.Calls(), rs, seqs, 0)
 		for i := 0; i+1 < len(rs); i++ {
 			if rs[i].Kind == "redirect" && rs[i].Addr != "127.0.0.1:1" && nodes[i+1] != rs[i].Addr {
 				res.Oracle, res.Class = fmt.Sprintf("after REDIRECT %s the next send went to %s", rs[i].Addr, nodes[i+1]), "redirect-target"
@@ -347,8 +348,8 @@ func runStandaloneBatch(c Case) (res obs.Result) {
 	at := r.Intn(n + 1)
 	flip := r.Chance(3, 4)
 	delays := []int64{0, 0}
-	l := &dlog{}
-	cli, err := newClient(r, "standalone", d, rueidis.ClientOption{RetryDelay: delayFn(delays, l)})
+	l := &ro.ConsultLog{}
+	cli, err := newClient(r, "standalone", d, rueidis.ClientOption{RetryDelay: delayFn(delays, l, d)})
 	if err != nil {
 		res.Oracle, res.Site, res.Class = "harness: NewClient failed: "+err.Error(), "harness", "setup"
 		return
@@ -435,8 +436,8 @@ func runExpiry(c Case) (res obs.Result) {
 		// the full scenario: the reply takes longer than the lifetime plus the 1 s grace of Close
 		steps = []fs.Step{{Kind: "", Delay: 1600 * time.Millisecond}}
 	}
-	l := &dlog{}
-	cli, err := newClient(r, "single", d, rueidis.ClientOption{RetryDelay: delayFn([]int64{0, 0, 0}, l), AlwaysPipelining: true, ConnLifetime: lifetime})
+	l := &ro.ConsultLog{}
+	cli, err := newClient(r, "single", d, rueidis.ClientOption{RetryDelay: delayFn([]int64{0, 0, 0}, l, d), AlwaysPipelining: true, ConnLifetime: lifetime})
 	if err != nil {
 		res.Oracle, res.Site, res.Class = "harness: NewClient failed: "+err.Error(), "harness", "setup"
 		return
